@@ -43,8 +43,12 @@ def val(rng, kind, zero_ok=True):
 
 def rockname(rng, used):
     for _ in range(100):
-        n = ''.join(rng.choice(LET + '0123456789') for _ in range(5))
-        if n not in used and not n.isdigit() and n.strip() == n:
+        if rng.random() < 0.15:
+            # a name that is all digits is a name like any other (it is looked up by name first)
+            n = rng.choice(('00001', '00002', '00003', '12345', '00010'))
+        else:
+            n = ''.join(rng.choice(LET + '0123456789') for _ in range(5))
+        if n not in used and n.strip() == n:
             return n
     raise HarnessError('no rock name')
 
@@ -773,6 +777,8 @@ class DataStoreMachine(StoreMachine):
             if cfg.get('reinsert_risk') and v.check in ('O1.short', 'O1.foft', 'O1.coft',
                                                         'O1.goft', 'O1.sections'):
                 v.key = 'permuted-sections+xp-reinsert'
+            elif cfg.get('coft_risk') and v.check == 'O1.coft':
+                v.key = 'xp:ELEME+COFT-before-CONNE'
             elif cfg.get('mesh') not in (None, 'infile') and \
                     (('ELEME' in xp) != ('CONNE' in xp)) and v.check in ('O1.conne', 'O1.eleme'):
                 v.key = 'xp:mesh-file+ELEME-xor-CONNE'
@@ -916,6 +922,11 @@ class DataStoreMachine(StoreMachine):
                 (old_xp and not dat.echo_extra_precision and not cfg['echo_off'])
             cfg['reinsert_risk'] = bool(back) and (dat._sections != canon or
                                                    set(old_xp) - set(dat._sections))
+            # known finding D24: history connections listed before CONNE while the blocks come
+            # from the companion file (the grid is then not empty when COFT is read)
+            secs = list(dat._sections)
+            cfg['coft_risk'] = cfg['mesh'] == 'infile' and 'ELEME' in cfg['xp'] and \
+                'COFT' in secs and 'CONNE' in secs and secs.index('COFT') < secs.index('CONNE')
             self.do_write(slot, name, cfg, fault)
         elif kind == 'R':
             self.do_read(self.pick_name(ch[0]), None if ch[1] == 3 else ch[1], fault)
@@ -935,8 +946,7 @@ class DataStoreMachine(StoreMachine):
         cfg = {'mesh': MESH_MODES[mm % 4]}
         g = dat.grid
         if cfg['mesh'] != 'infile':
-            if dat.short_output or dat.history_block or dat.history_connection or \
-                    dat.history_generator:
+            if dat.short_output:
                 return None       # resolved against the grid while reading: in-file mesh only
             if g.num_blocks == 0:
                 return None
